@@ -12,7 +12,8 @@ RULE = ("Cases: (exhaustive) every phase sequence of length 1..L over the alphab
         "phases of 1..30 samples. Oracle: wrap positions recomputed as |p[i]-p[i-1]|>phase_step; the "
         "labels must be -1 or 0..K-1 in temporal order, each label exactly one wrap-delimited segment; "
         "with return_good=False and >=1 wrap the labels must equal the partition (every sample "
-        "labelled); no wrap => all -1; multi-column input must equal column-wise results. "
+        "labelled); no wrap => all -1; multi-column input must equal column-wise results; a third of the random cases are preceded, in the same process, by an "
+        "all-cycles request with a block validity mask (itself checked: masked segments skipped, the rest numbered consecutively). "
         "Non-trivial: the series has >=1 wrap; distinct by SHA-1 of the encoded case.")
 ASSUMPTIONS = ["phases lie in [0, 2pi) (the routine re-wraps larger values itself)",
                "wrap := absolute first difference > phase_step, as documented"]
@@ -66,6 +67,26 @@ def oracle(case, rec):
     if np.any(np.abs(np.abs(np.diff(p2, axis=0)) - step) <= 1e-12):
         raise Discard('a phase difference equals phase_step exactly (docstring says "minimum value", code uses >)')
     arg = gens.relayout(p.copy(), case.get('layout', 'C'))
+    if case.get('pre'):
+        # an earlier, different request in the same process (all cycles with a validity mask): it must be answered
+        # correctly itself - masked segments skipped, the others numbered consecutively - and leave nothing behind
+        q = p2[:, 0][::-1].copy()
+        m = np.ones(q.size, dtype=bool)
+        m[q.size // 3: q.size // 3 + max(1, q.size // 5)] = False
+        try:
+            pre = np.asarray(emd.cycles.get_cycle_vector(q, return_good=False, mask=m.copy(), **kwargs))[:, 0]
+        except Exception as e:
+            raise Violation('C12/get_cycle_vector/raises/%s/all-cycles-with-mask' % type(e).__name__, repr(e))
+        if not np.any(np.abs(np.abs(np.diff(q)) - step) <= 1e-12):
+            exp = np.zeros(q.size, dtype=int) - 1
+            k = 0
+            for a, b in refmodel.cycle_partition(q, step):
+                if np.all(m[a:b]):
+                    exp[a:b] = k
+                    k += 1
+            if not np.array_equal(pre, exp):
+                raise Violation('C12/get_cycle_vector/all-cycles-with-mask', 'expected %r got %r' % (exp.tolist()[:40], pre.tolist()[:40]))
+        rec.cls('after-a-masked-all-cycles-request')
     try:
         out = emd.cycles.get_cycle_vector(arg, return_good=good, **kwargs)
     except Exception as e:
@@ -114,11 +135,12 @@ STEPS = [np.pi / 2, np.pi, 1.5 * np.pi, 1.9 * np.pi]
 
 def synth_strategy(max_n):
     return st.fixed_dictionaries({'p': gens.synth_phase(max_n=max_n), 'good': st.booleans(),
-                                  'step': st.sampled_from(STEPS), 'layout': st.sampled_from(gens.LAYOUTS)})
+                                  'step': st.sampled_from(STEPS), 'layout': st.sampled_from(gens.LAYOUTS),
+                                  'pre': st.sampled_from([False, False, True])})
 
 
 short_strategy = st.fixed_dictionaries({'p': gens.short_phase(30), 'good': st.booleans(),
-                                        'step': st.sampled_from(STEPS)})
+                                        'step': st.sampled_from(STEPS), 'pre': st.sampled_from([False, False, True])})
 
 CLAUSES = [
     Clause('C12.exhaustive', oracle, enumerate=enum_alphabet, quick=None, thorough=None,
